@@ -81,6 +81,7 @@ type Object struct {
 	Fresh bool   // allocated during the function under verification
 	Input bool   // (part of) a caller-supplied input buffer (ownership checks)
 	Tag   string // description
+	T     types.Type // static type of a cell's value when known
 }
 
 // ---------- byte memories ----------
